@@ -291,6 +291,82 @@ func runC02(r *ev.Run) {
 		r.Add("states", int64(kv.Pow(len(subOps), L)))
 	})
 
+	// Phase 3b: the write log of a batch. For every committed C1 over three keys of the sub-alphabet,
+	// every batch of <= 3 operations on these keys (remove / re-insert / remove chains on one key
+	// included): the write log returned by the commit, replayed on a second tree at C1, must reach the
+	// same root (= the contents-only hash), and must not mention a key twice.
+	{
+		bk := sub[:3]
+		var bops []op
+		for _, k := range bk {
+			for _, v := range kv.Values[1:] {
+				bops = append(bops, op{Op: "ins", Key: k, Val: v})
+			}
+			bops = append(bops, op{Op: "rem", Key: k})
+		}
+		BL := 3
+		if r.Thorough() {
+			BL = 4
+		}
+		nb := kv.Pow(len(subVals), len(bk))
+		ev.ParallelRange(nb, r.Seed, func(i int) {
+			c1 := kv.ContentsFromIndex(i, bk, subVals)
+			var trans int64
+			idx := make([]int, BL)
+			for l := 1; l <= BL; l++ {
+				for k := range idx {
+					idx[k] = 0
+				}
+				for {
+					// a real commit of the base (a NoPersist commit, as RootOf does, keeps the pending write log)
+					t, _ := buildSorted(c1, false)
+					_, _, _ = t.Commit(kv.Ctx, kv.Namespace, 1)
+					c := c1.Clone()
+					seq := make([]op, 0, l)
+					for _, k := range idx[:l] {
+						seq = append(seq, bops[k])
+						_ = applyOp(t, c, bops[k])
+					}
+					wl, h, err := t.Commit(kv.Ctx, kv.Namespace, 2)
+					t.Close()
+					t2, _ := buildSorted(c1, false)
+					_, _, _ = t2.Commit(kv.Ctx, kv.Namespace, 1)
+					var h2 hash.Hash
+					err2 := t2.ApplyWriteLog(kv.Ctx, writelog.NewStaticIterator(wl))
+					if err2 == nil {
+						h2, err2 = kv.RootOf(t2)
+					}
+					t2.Close()
+					trans += int64(l + 3)
+					hr := kv.CanonicalRoot(c)
+					dup := false
+					seenK := map[string]bool{}
+					for _, e := range wl {
+						dup = dup || seenK[string(e.Key)]
+						seenK[string(e.Key)] = true
+					}
+					if err != nil || err2 != nil || h != hr || h2 != hr || dup {
+						violate(fmt.Sprintf("c02 batchlog %s %v", c1, seq), fmt.Sprintf("commit %s, then batch %v, commit: root %s, contents-only hash of %s is %s (err=%v); the batch's write log %v replayed on a tree at %s gives root %s (err=%v, duplicate key=%v)", c1, seq, h, c, hr, err, wl, c1, h2, err2, dup), c02Artefact{Mode: "batchlog", Base: c1, Ops: seq})
+					}
+					k := l - 1
+					for k >= 0 {
+						idx[k]++
+						if idx[k] < len(bops) {
+							break
+						}
+						idx[k] = 0
+						k--
+					}
+					if k < 0 {
+						break
+					}
+				}
+			}
+			r.Add("transitions", trans)
+			r.Add("batch_write_logs_replayed", int64(kv.Pow(len(bops), BL)))
+		})
+	}
+
 	// Phase 4: backends, tiny caches, reopen, write-log replay.
 	c02Backends(r, sub, subVals, subOps, violate)
 
@@ -298,7 +374,7 @@ func runC02(r *ev.Run) {
 	c02Pressure(r, violate)
 
 	r.Alias("traces_validated_against_impl", "transitions")
-	r.Set("rule", "phase1: all contents over 8 keys x {absent,\"\",a,b}, 4 constructions, root == contents-only canonical hash, roots injective; phase2: closure (every letter from every canonical state yields the canonical physical shape); phase3: commit, all op sequences <= L over the sub-alphabet, commit; phase4: same on badger/pathbadger with cache capacity 1/2/unbounded, reopen at root, write-log replay; phase5: a 10-key tree (paths of up to 5 nodes) reopened with node caches of 6, 7, 8 and unlimited: every sequence of 3 (thorough 4) rounds, a round being get+remove+commit or insert+commit of one of 5 keys; after every commit the root equals the contents-only hash and every key reads back")
+	r.Set("rule", "phase1: all contents over 8 keys x {absent,\"\",a,b}, 4 constructions, root == contents-only canonical hash, roots injective; phase2: closure (every letter from every canonical state yields the canonical physical shape); phase3: commit, all op sequences <= L over the sub-alphabet, commit; phase3b: commit, every batch of <= 3 (thorough 4) operations on three keys, commit: the batch's write log replayed on a second tree at the first root reaches the same root; phase4: same on badger/pathbadger with cache capacity 1/2/unbounded, reopen at root, write-log replay; phase5: a 10-key tree (paths of up to 5 nodes) reopened with node caches of 6, 7, 8 and unlimited: every sequence of 3 (thorough 4) rounds, a round being get+remove+commit or insert+commit of one of 5 keys; after every commit the root equals the contents-only hash and every key reads back")
 	r.Assume("SHA-512/256 (common/crypto/hash) is trusted and collision free on the explored universe", "keys outside the 8-key alphabet and values other than \"\", a, b are not covered")
 	r.Finish()
 }
@@ -431,6 +507,26 @@ func replayC02(a c02Artefact) string {
 			if kv.NormDump(t2) != kv.NormDump(ref) {
 				return "in-memory shape differs from canonical shape"
 			}
+		}
+	case "batchlog":
+		t, _ := buildSorted(a.Base, false)
+		_, _, _ = t.Commit(kv.Ctx, kv.Namespace, 1)
+		c := a.Base.Clone()
+		for _, o := range a.Ops {
+			_ = applyOp(t, c, o)
+		}
+		wl, h, err := t.Commit(kv.Ctx, kv.Namespace, 2)
+		if err != nil {
+			return err.Error()
+		}
+		t2, _ := buildSorted(a.Base, false)
+		_, _, _ = t2.Commit(kv.Ctx, kv.Namespace, 1)
+		if err := t2.ApplyWriteLog(kv.Ctx, writelog.NewStaticIterator(wl)); err != nil {
+			return err.Error()
+		}
+		h2, _ := kv.RootOf(t2)
+		if hr := kv.CanonicalRoot(c); h != hr || h2 != hr {
+			return fmt.Sprintf("batch root %s, replayed write log %v gives %s, contents-only hash %s of %s", h, wl, h2, hr, c)
 		}
 	case "pressure":
 		return c02PressureCase(a.Backend, a.Capacity, a.Ops)
